@@ -25,7 +25,7 @@ def design_checks(ck, tier):
             ("set/A123-win1", dict(mode="set", msgs="MsgsA123", init_a="{14}", init_b="{15}", win=1)),
             ("set/A123-win3", dict(mode="set", msgs="MsgsA123", init_a="{14}", init_b="{15}", win=3))]
     for label, kw in runs:
-        res = sc.tlc_mc(ck, label.replace("/", "_"), timeout=1500 if tier == "thorough" else 300, **kw)
+        res = sc.tlc_mc(ck, label.replace("/", "_"), timeout=1800 if tier == "thorough" else 900, **kw)
         vlib.tlc_ok(res, label)
         ck.add_tlc(res, label)
 
